@@ -16,7 +16,15 @@ for name in sorted(os.listdir(os.path.join(HERE, 'seeded'))):
         first = mt.group(1) if mt else ''
     title = (m.get('title') or '').replace('|', '/')[:90]
     needs = (m.get('needs') or '').replace('|', '/').replace('\n', ' ')[:110]
-    rows.append(f"| {name} | {title} | {needs} | {'**' + own + '**' if own in det else 'MISSED'} ({first}) | {', '.join(p for p in det if p != own) or '-'} |")
+    if m.get('benign'):
+        fa = m.get('false_alarm_for', [])
+        ab = m.get('abstains_for', [])
+        verdict = ('FALSE ALARM: ' + ', '.join(fa)) if fa else ('no alarm; ' + ('own check passes' if own not in ab else 'own check abstains (exit 2)'))
+        rows.append(f"| {name} | {title} | (behaviour-preserving refactoring: demo passes with and without it) | {verdict} | abstain: {', '.join(p for p in ab if p != own) or '-'} |")
+        continue
+    errs = m.get('analysis_error_for', [])
+    caught = '**' + own + '**' if own in det else ('not decided (exit 2)' if own in errs else 'MISSED')
+    rows.append(f"| {name} | {title} | {needs} | {caught} ({first}) | {', '.join(p for p in det if p != own) or '-'} |")
 table = "| seeded change | what was changed | needs, to manifest | caught by its property's check (obligation) | also reported by |\n|---|---|---|---|---|\n" + "\n".join(rows)
 p = os.path.join(HERE, 'DESIGN.md')
 s = open(p).read()
